@@ -39,6 +39,12 @@ BugImportF(s) ==
   THEN [r EXCEPT !.local = [b \in B |-> IF s.git[b] # s.atgit[b] THEN Normal(s.git[b]) ELSE r.local[b]]]
   ELSE IF Bug = "import_forgets_atgit" \* the @git record is not updated: a second import merges again
   THEN [r EXCEPT !.atgit = s.atgit]
+  ELSE IF Bug = "ff_shortcut"          \* local is an ancestor of Git's new value: take Git's value without merging
+  THEN [r EXCEPT !.local = [b \in B |->
+          IF /\ s.git[b] # s.atgit[b] /\ ~IsConflicted(s.local[b])
+             /\ Target(s.local[b]) # Absent /\ s.git[b] # Absent
+             /\ IsAncestor(Par, Target(s.local[b]), s.git[b])
+          THEN Normal(s.git[b]) ELSE r.local[b]]]
   ELSE IF Bug = "reimport_resolves"    \* an import with nothing new "resolves" a conflict to Git's side
   THEN [r EXCEPT !.local = [b \in B |-> IF b \notin ImportChanged(s) /\ IsConflicted(s.local[b])
                                         THEN Normal(s.git[b]) ELSE r.local[b]]]
